@@ -162,8 +162,9 @@ func sameCounters(a, b map[string]int64) bool {
 	return true
 }
 
-// runConfig plays one random history on one accepted configuration and returns the number of hash functions seen on the wire.
-func (d *driver) runConfig(c cfg, nops int) string {
+// runConfig plays one random history on one accepted configuration, then collide rounds of refill + bad RemoveMulti batches,
+// and returns the number of hash functions seen on the wire.
+func (d *driver) runConfig(c cfg, nops, collide int) string {
 	run := d.run
 	srv := fakeredis.New(fakeredis.Options{NoLog: true, Seed: run.Seed}, addr)
 	defer srv.Close()
@@ -538,35 +539,11 @@ func (d *driver) runConfig(c cfg, nops int) string {
 
 	// removals that must change nothing: the premise of the first clause ends here, only the hash is judged
 	kv, _ := strconv.Atoi(k)
-	badRounds := 8
-	if kv > 100 {
-		badRounds = 3
-	}
-	for i := 0; i < badRounds && kv > 0; i++ {
-		var keys []string
-		multi := i%2 == 1
-		bad := d.fresh("never-added")
-		if known := live(); len(known) > 0 && d.rng.Intn(3) == 0 {
-			bad = pick(known) // removed more often than it is present: see below, the call lists it net+1 times
-		}
-		if multi {
-			lv := live()
-			for j, n := 0, d.rng.Intn(min(maxItems, 4)); j < n && len(lv) > 0; j++ {
-				keys = append(keys, pick(lv))
-			}
-			for j := 0; j <= max(net[bad], 0); j++ {
-				keys = append(keys, bad)
-			}
-			d.rng.Shuffle(len(keys), func(a, b int) { keys[a], keys[b] = keys[b], keys[a] })
-			if len(keys) > 7 {
-				continue
-			}
-		} else {
-			if net[bad] > 0 {
-				continue
-			}
-			keys = []string{bad}
-		}
+	var pool []string // never-added items used so far: they come back in later batches
+	// judge performs one removal that lists never-added / over-removed items and decides it on the server's counters alone:
+	// the counters afterwards must equal the counters before minus the decrements of some subset of the items that were
+	// removable against the state before the call, and no counter may be negative. It returns false when the history ends.
+	judge := func(keys []string, multi bool, distinctBad int, world string) bool {
 		before, ok1 := snapshot(node)
 		var err error
 		if d.guard(key(), "Remove(bad)", func() {
@@ -576,11 +553,11 @@ func (d *driver) runConfig(c cfg, nops int) string {
 				err = bf.Remove(ctx, keys[0])
 			}
 		}) {
-			return k
+			return false
 		}
 		if err != nil {
 			fail("Remove of a never-added item", err)
-			return k
+			return false
 		}
 		after, ok2 := snapshot(node)
 		tp.mu.Lock()
@@ -589,7 +566,7 @@ func (d *driver) runConfig(c cfg, nops int) string {
 		// ARGV of the removal script as received by the server: indexes of every item in call order, then hashIterations
 		if !ok1 || !ok2 || len(ev) != 5+len(keys)*kv+1 || ev[len(ev)-1] != k {
 			run.Inconclusive("could not read the removal script's arguments / the counters from the server")
-			return k
+			return false
 		}
 		idx := ev[5 : len(ev)-1]
 		dec := make([]map[string]int64, len(keys))
@@ -613,29 +590,81 @@ func (d *driver) runConfig(c cfg, nops int) string {
 			}
 		}
 		note("Remove(bad)", keys, fmt.Sprintf("definitely-bad=%d", definitelyBad))
-		run.Case(fmt.Sprintf("%s k=%s bad-removal multi=%v items=%d bad=%d", base, k, multi, len(keys), min(definitelyBad, 3)), definitelyBad > 0)
+		run.Case(fmt.Sprintf("%s k=%s bad-removal%s multi=%v items=%d distinct-bad=%d bad=%d", base, k, world, multi, len(keys), distinctBad, min(definitelyBad, 3)), definitelyBad > 0)
+		if distinctBad > 1 {
+			run.Observe("bad_batches_with_several_distinct_bad_items", 1)
+		}
+		d.shapeOfBatch(keys, idx, kv, before)
 		negatives()
 		for f, v := range after {
 			if v < 0 {
-				run.Violation("negative-counter", key(), map[string]any{"config": base, "field": f, "value": v, "call": short(keys), "history": hist})
-				return k
+				run.Violation("negative-counter", key(), map[string]any{"config": base, "field": f, "value": v, "call": short(keys), "item_indexes": idx, "counters_before": before, "counters_after": after, "history": hist})
+				return false
 			}
 		}
-		// the counters afterwards must be explained by removing some subset of the removable items and nothing else
-		explained := false
-		for mask := 0; mask < 1<<len(cand) && !explained; mask++ {
-			want := map[string]int64{}
-			for f, v := range before {
-				want[f] = v
+		// the counters afterwards must be explained by removing some subset of the removable items and nothing else:
+		// diff = before - after has to be the sum of the decrements of a subset of cand (every item decrements kv positions)
+		diff := map[string]int64{}
+		total := int64(0)
+		explained := true
+		for f, v := range before {
+			if dv := v - after[f]; dv != 0 {
+				diff[f] = dv
 			}
-			for b, j := range cand {
-				if mask&(1<<b) != 0 {
-					for f, n := range dec[j] {
-						want[f] -= n
+		}
+		for f, v := range after {
+			if _, had := before[f]; !had && v != 0 {
+				diff[f] = -v
+			}
+		}
+		for _, dv := range diff {
+			if dv < 0 {
+				explained = false // a counter grew
+			}
+			total += dv
+		}
+		var chosen []int
+		if explained {
+			explained = total%int64(kv) == 0 && total/int64(kv) <= int64(len(cand))
+		}
+		if explained {
+			var dfs func(i int, need int64) bool
+			dfs = func(i int, need int64) bool {
+				if need == 0 {
+					for _, v := range diff {
+						if v != 0 {
+							return false
+						}
+					}
+					return true
+				}
+				if int64(len(cand)-i) < need {
+					return false
+				}
+				j := cand[i]
+				fits := true
+				for f, n := range dec[j] {
+					if diff[f] < n {
+						fits = false
+						break
 					}
 				}
+				if fits {
+					for f, n := range dec[j] {
+						diff[f] -= n
+					}
+					chosen = append(chosen, j)
+					if dfs(i+1, need-1) {
+						return true
+					}
+					chosen = chosen[:len(chosen)-1]
+					for f, n := range dec[j] {
+						diff[f] += n
+					}
+				}
+				return dfs(i+1, need)
 			}
-			explained = sameCounters(want, after)
+			explained = dfs(0, total/int64(kv))
 		}
 		if definitelyBad > 0 {
 			run.Observe("bad_removals_judged", int64(definitelyBad))
@@ -644,7 +673,125 @@ func (d *driver) runConfig(c cfg, nops int) string {
 		}
 		if !explained {
 			run.Violation("bad-removal-changed-counters", key(), map[string]any{"config": base, "call": short(keys), "item_indexes": idx, "counters_before": before, "counters_after": after, "history": hist})
+			return false
+		}
+		// only the generator uses this from here on (what is still live, what would be over-removed); never a verdict
+		for _, j := range chosen {
+			net[keys[j]]--
+		}
+		return true
+	}
+	// badBatch builds a RemoveMulti call: nbad distinct items that were never added (fresh or seen in an earlier batch) or
+	// that the call lists once more than their net multiplicity, mixed with up to nlive removals of live items, in random order.
+	badBatch := func(nbad, nlive, limit int) ([]string, int) {
+		var keys []string
+		bad := map[string]bool{}
+		lv := live()
+		for tries := 0; len(bad) < nbad && tries < 4*nbad; tries++ {
+			x, isNew := "", false
+			switch p := d.rng.Intn(10); {
+			case p < 3 && len(known) > 0:
+				x = pick(known) // live: the call lists it once more than it is present; removed again after its last removal otherwise
+			case p < 5 && len(pool) > 0:
+				x = pick(pool)
+			default:
+				x, isNew = d.fresh("never-added"), true
+			}
+			copies := max(net[x], 0) + 1
+			if bad[x] || copies > 3 || len(keys)+copies > limit {
+				continue
+			}
+			if isNew {
+				if pool = append(pool, x); len(pool) > 24 {
+					pool = pool[1:]
+				}
+			}
+			bad[x] = true
+			for j := 0; j < copies; j++ {
+				keys = append(keys, x)
+			}
+		}
+		budget := map[string]int{}
+		for j := 0; j < nlive && len(lv) > 0 && len(keys) < limit; j++ {
+			if x := pick(lv); !bad[x] && budget[x] < net[x] {
+				budget[x]++
+				keys = append(keys, x)
+			}
+		}
+		d.rng.Shuffle(len(keys), func(a, b int) { keys[a], keys[b] = keys[b], keys[a] })
+		return keys, len(bad)
+	}
+	badRounds := 8
+	if kv > 100 {
+		badRounds = 3
+	}
+	for i := 0; i < badRounds && kv > 0; i++ {
+		if i%2 == 1 {
+			nbad := 1
+			if d.rng.Intn(3) > 0 {
+				nbad = 2 + d.rng.Intn(4)
+			}
+			limit := max(2, min(10, maxItems, 1500/kv))
+			keys, distinct := badBatch(min(nbad, limit), d.rng.Intn(min(maxItems, 4)), limit)
+			if len(keys) == 0 {
+				continue
+			}
+			if !judge(keys, true, distinct, "") {
+				return k
+			}
+			continue
+		}
+		bad := d.fresh("never-added")
+		if lv := live(); len(lv) > 0 && d.rng.Intn(3) == 0 {
+			bad = pick(lv)
+		}
+		if net[bad] > 0 {
+			continue // a single Remove of a live item is no bad removal
+		}
+		if !judge([]string{bad}, false, 1, "") {
 			return k
+		}
+	}
+
+	// collision worlds: few counters, several hash functions. The filter is refilled (sometimes deleted first) with a handful
+	// of items so that about half of the counters are zero, then RemoveMulti batches carry 2-5 distinct bad items among live
+	// ones: refused items whose indexes overlap those of later items of the same call.
+	for i := 0; i < collide && kv >= 2 && kv <= 20; i++ {
+		if len(live()) > int(c.n)+2 || d.rng.Intn(3) == 0 {
+			var err error
+			if d.guard(key(), "Delete", func() { err = bf.Delete(ctx) }) {
+				return k
+			}
+			if err != nil {
+				fail("Delete", err)
+				return k
+			}
+			note("Delete", nil, "ok")
+			run.Observe("collision_world_deletes", 1)
+			net = map[string]int{}
+			known, pool = nil, nil
+		}
+		n := 1 + d.rng.Intn(3)
+		keys := make([]string, n)
+		for j := range keys {
+			if len(known) > 0 && d.rng.Intn(3) == 0 {
+				keys[j] = pick(known)
+			} else {
+				keys[j] = d.fresh("m")
+			}
+		}
+		if !add(keys, true) {
+			return k
+		}
+		for b, nb := 0, 1+d.rng.Intn(3); b < nb; b++ {
+			keys, distinct := badBatch(2+d.rng.Intn(4), d.rng.Intn(4), 12)
+			if len(keys) == 0 {
+				continue
+			}
+			run.Observe("collision_world_batches", 1)
+			if !judge(keys, true, distinct, " collision-world") {
+				return k
+			}
 		}
 	}
 	tp.mu.Lock()
@@ -653,6 +800,72 @@ func (d *driver) runConfig(c cfg, nops int) string {
 	run.Observe("hget_in_scripts", tp.hget)
 	tp.mu.Unlock()
 	return k
+}
+
+// shapeOfBatch describes, for the evidence only (never for a verdict), which situations a removal call put in front of the
+// script. It replays the bookkeeping the statement implies on the item indexes the server received: an item is refused at the
+// first of its positions whose counter is used up by what the call took before, and a refused item takes nothing.
+func (d *driver) shapeOfBatch(keys, idx []string, kv int, before map[string]int64) {
+	shadow := map[string]int64{}
+	refusedAt := make([]int, len(keys))
+	refused, early := 0, 0
+	for j := range keys {
+		refusedAt[j] = -1
+		fs := idx[j*kv : (j+1)*kv]
+		for p, f := range fs {
+			if _, ok := shadow[f]; !ok {
+				shadow[f] = before[f]
+			}
+			shadow[f]--
+			if shadow[f] < 0 {
+				refusedAt[j] = p
+				break
+			}
+		}
+		if refusedAt[j] >= 0 {
+			refused++
+			if refusedAt[j] < kv-1 {
+				early++
+			}
+			for p := 0; p <= refusedAt[j]; p++ {
+				shadow[fs[p]]++
+			}
+		}
+	}
+	d.run.Observe("refused_items_in_bad_removals", int64(refused))
+	d.run.Observe("refused_items_failing_before_their_last_position", int64(early))
+	if refused > 1 {
+		d.run.Observe("batches_with_several_refused_items", 1)
+	}
+	shares, failsThere := false, false
+	for j := range keys {
+		if refusedAt[j] < 0 || refusedAt[j] >= kv-1 {
+			continue
+		}
+		later := map[string]bool{} // positions of the refused item after the one it failed at
+		for _, f := range idx[j*kv+refusedAt[j]+1 : (j+1)*kv] {
+			later[f] = true
+		}
+		for j2 := j + 1; j2 < len(keys); j2++ {
+			if refusedAt[j2] < 0 || keys[j2] == keys[j] {
+				continue
+			}
+			for _, f := range idx[j2*kv : (j2+1)*kv] {
+				if later[f] {
+					shares = true
+				}
+			}
+			if later[idx[j2*kv+refusedAt[j2]]] {
+				failsThere = true
+			}
+		}
+	}
+	if shares {
+		d.run.Observe("batches_refused_before_last_position_then_bad_item_sharing_later_index", 1)
+	}
+	if failsThere {
+		d.run.Observe("batches_refused_before_last_position_then_bad_item_refused_on_shared_later_index", 1)
+	}
 }
 
 // probeZero records, for the evidence, what Remove and ItemMinCount do on a configuration with 0 hash functions.
@@ -677,6 +890,9 @@ var (
 	gridN = []uint{0, 1, 2, 3, 10, 100, 10_000, 1_000_000, 10_000_000}
 	gridR = []float64{math.SmallestNonzeroFloat64, 1e-300, 1e-12, 1e-6, 0.01, 0.5, 0.7, 0.7071, 0.7072, 0.75, 0.9, 0.99, 0.999999, math.Nextafter(1, 0), 1, math.Nextafter(1, 2), 0, -0.5, math.NaN(), math.Inf(1)}
 )
+
+// collisionWorlds are small accepted configurations outside the grid (1-5 expected items): 4-29 counters, 2-7 hash functions.
+var collisionWorlds = []cfg{{1, 0.2}, {1, 0.1}, {1, 0.05}, {2, 0.3}, {2, 0.2}, {2, 0.1}, {2, 0.05}, {2, 0.02}, {3, 0.3}, {3, 0.2}, {3, 0.1}, {3, 0.05}, {3, 0.02}, {5, 0.3}, {5, 0.1}}
 
 func grid() []cfg {
 	var l []cfg
@@ -779,7 +995,8 @@ func TestC36(t *testing.T) {
 	}
 	run := mon.Start(t, "C36", "exploration",
 		"every grid point (expectedNumberOfItems in {0,1,2,3,10,100,1e4,1e6,1e7} x falsePositiveRate in {5e-324,1e-300,1e-12,1e-6,0.01,0.5,0.7,0.7071,0.7072,0.75,0.9,0.99,0.999999,1-2^-53,1,1+2^-52,0,-0.5,NaN,+Inf}) that NewCountingBloomFilter accepts is first probed in a crash-isolated child (constructor, first Add, first Exists), then gets a random history of "+
-			"Add/AddMulti (re-adds, duplicates)/Remove/RemoveMulti of items whose net multiplicity stays >= 0/Exists/ExistsMulti/ItemMinCount/ItemMinCountMulti against a reference multiset (some adds answered by the server with an error reply - OOM, READONLY, WRONGTYPE, script error - instead of being executed: an Add that returns nil then still counts as added), then removals of never-added or over-removed items judged on the server's counters (HGETALL before/after, item indexes read from the EVALSHA the server received); "+
+			"Add/AddMulti (re-adds, duplicates)/Remove/RemoveMulti of items whose net multiplicity stays >= 0/Exists/ExistsMulti/ItemMinCount/ItemMinCountMulti against a reference multiset (some adds answered by the server with an error reply - OOM, READONLY, WRONGTYPE, script error - instead of being executed: an Add that returns nil then still counts as added), then removals of never-added or over-removed items judged on the server's counters (HGETALL before/after, item indexes read from the EVALSHA the server received): single Removes and RemoveMulti calls that mix 1-5 distinct bad items (fresh, seen in an earlier call, removed before, or listed once more than their net multiplicity) with live ones in random order; "+
+			"configurations with 1-3 (half as many rounds: 10) expected items and 2-20 hash functions, and 15 further small ones (n in 1..5, rate 0.02-0.3: 4-29 counters, 2-7 hash functions), then get collision rounds: the filter is refilled with 1-3 items (deleted first one time in three or when more than n+2 items are live) and takes 1-3 such RemoveMulti calls with 2-5 distinct bad items, so that refused items and later items of the same call share counters; "+
 			"a case = (n, rate, hash functions on the wire, call kind, members/others queried or removal shape), non-trivial when an item with positive net multiplicity was queried / a removal had to be refused")
 	defer run.Finish()
 	run.Assume("fakeredis HINCRBY/HGET/HMGET/HGETALL/INCRBY/DECRBY and minilua execute the shipped scripts as Redis 7 would (harness self tests)",
@@ -811,9 +1028,17 @@ func TestC36(t *testing.T) {
 			runnable = append(runnable, c)
 		}
 	}
+	cw := run.N(40, 1000) // collision rounds per small configuration
 	for _, c := range runnable {
 		n, r := c.n, c.rate
-		k := d.runConfig(c, nops)
+		collide := 0
+		switch {
+		case n >= 1 && n <= 3:
+			collide = cw
+		case n == 10:
+			collide = cw / 2
+		}
+		k := d.runConfig(c, nops, collide)
 		run.Observe("configs_accepted_and_run", 1)
 		if k == "0" {
 			zero = append(zero, c.String())
@@ -823,6 +1048,17 @@ func TestC36(t *testing.T) {
 			run.Sample(map[string]any{"config": c.String(), "hash_functions_on_wire": k, "ops": nops})
 		}
 	}
+	// collision worlds: a handful of counters, 2-7 hash functions, so that the items of one call share counters all the time
+	for _, c := range collisionWorlds {
+		k := d.runConfig(c, nops/4, cw)
+		run.Observe("collision_worlds_run", 1)
+		if kv, _ := strconv.Atoi(k); kv < 2 {
+			run.Inconclusive("collision world " + c.String() + " ran with fewer than 2 hash functions (" + k + ")")
+		}
+		if (c.n == 1 && c.rate == 0.2) || (c.n == 3 && c.rate == 0.05) {
+			run.Sample(map[string]any{"config": c.String(), "hash_functions_on_wire": k, "ops": nops / 4, "collision_rounds": cw})
+		}
+	}
 	for why, l := range rejected {
 		if len(l) > 8 {
 			rejected[why] = append(l[:8:8], fmt.Sprintf("…(%d in total)", len(l)))
@@ -830,5 +1066,6 @@ func TestC36(t *testing.T) {
 	}
 	run.Extra("rejected_configs", rejected)
 	run.Extra("zero_hash_function_configs", zero)
-	run.Require("present_answers_checked", "multi_positions_checked", "mincount_answers_checked", "mincount_checked_multiplicity_gt1", "legit_removals", "adds_refused_by_server_and_reported", "bad_removals_judged", "hincrby_in_scripts", "hget_in_scripts", "true_negatives", "final_counter_fields_inspected")
+	run.Require("present_answers_checked", "multi_positions_checked", "mincount_answers_checked", "mincount_checked_multiplicity_gt1", "legit_removals", "adds_refused_by_server_and_reported", "bad_removals_judged", "bad_batches_with_several_distinct_bad_items", "batches_with_several_refused_items", "refused_items_failing_before_their_last_position",
+		"batches_refused_before_last_position_then_bad_item_sharing_later_index", "batches_refused_before_last_position_then_bad_item_refused_on_shared_later_index", "hincrby_in_scripts", "hget_in_scripts", "true_negatives", "final_counter_fields_inspected")
 }
